@@ -67,8 +67,14 @@ func (r *Reconnector) Schedule(addr string) {
 
 	state, exists := r.states[addr]
 	if !exists {
+		// The first delay is capped like every later one:
+		// delay = min(initial * multiplier^attempt, max), also for attempt 0.
+		initial := r.cfg.InitialDelay
+		if r.cfg.MaxDelay > 0 && initial > r.cfg.MaxDelay {
+			initial = r.cfg.MaxDelay
+		}
 		state = &reconnectState{
-			nextDelay: r.cfg.InitialDelay,
+			nextDelay: initial,
 		}
 		r.states[addr] = state
 	}
